@@ -132,6 +132,22 @@ func resolve(style, wantKind, wantName string, wantNamed, wantFail bool) *ev.Vio
 			return ev.V("auto.Wrap(auto.New(%q), %q) renders differently from auto.New(%q): err %v vs %v\n--- re-styled\n%s\n--- direct\n%s", other, style, style, e3, err, o3, out)
 		}
 	}
+	// a styled table keeps its style whatever else is wrapped around the same table afterwards
+	{
+		base := tabular.New()
+		fill(base)
+		kept := auto.Wrap(base, style)
+		for _, other := range []string{"ascii-simple", "no-such-style-at-all", "texttable", "csv", "none"} {
+			later := auto.Wrap(base, other)
+			if len(style)%2 == 0 {
+				later.Render()
+			}
+		}
+		o4, e4 := kept.Render()
+		if o4 != out || (e4 != nil) != (err != nil) {
+			return ev.V("auto.Wrap(t, %q), rendered after other styles were wrapped around the same table, differs from auto.New(%q): err %v vs %v\n--- kept\n%s\n--- direct\n%s", style, style, e4, err, o4, out)
+		}
+	}
 	if wantFail {
 		if err == nil || out != "" {
 			return ev.V("style %q names nothing known, yet rendering gave err=%v output=%q", style, err, out)
@@ -163,7 +179,11 @@ func CheckCase(c Case) *ev.Violation {
 	for i, b := range c.Names {
 		// fixed-width suffix: two names can only be equal if they come from the same case
 		// (a plain "%s%d" let base "A" of case 327 collide with base "A3" of case 27)
-		actual[i] = fmt.Sprintf("%s-%08d", b, seq)
+		if strings.Contains(b, "#") {
+			actual[i] = strings.Replace(b, "#", fmt.Sprintf("-%08d", seq), 1) // the suffix sits inside: the name may end in blanks
+		} else {
+			actual[i] = fmt.Sprintf("%s-%08d", b, seq)
+		}
 	}
 	registered := map[string]bool{}
 	pkgNamed := map[string]bool{}
@@ -253,6 +273,14 @@ func CheckCase(c Case) *ev.Violation {
 				if strings.Contains(op.Form, "flip") {
 					s = flip(p)
 				}
+				if op.Form == "pad" {
+					// blanks are part of a name: a padded sub-package name is no sub-package name (and nobody registered it)
+					s = []string{" " + p, p + " ", "\t" + p, p + "\n", " " + p + " "}[len(op.Trail)%5]
+					if !registered[s] {
+						v = resolve(s, "texttable", "", false, true)
+					}
+					break
+				}
 				v = resolve(s+trail, p, "", false, false)
 			case "texttable":
 				s := "texttable"
@@ -281,6 +309,10 @@ func CheckCase(c Case) *ev.Violation {
 					s = "TEXTTABLE." + n
 				case "bare+trail":
 					s = n + trail // sections after the first are ignored (not locked down): the name still selects the decoration
+				case "pad":
+					s = []string{" " + n, n + " ", "\t" + n, n + "\n", " " + n + " "}[len(op.Trail)%5]
+					known = registered[s]
+					n = s
 				default:
 					s = n
 				}
@@ -345,6 +377,9 @@ func Classify(c Case) (bool, interface{}, []string) {
 	for _, n := range c.Names {
 		if strings.ToLower(n) != n {
 			add("name-with-upper-case")
+		}
+		if strings.TrimSpace(strings.Replace(n, "#", "x", 1)) != strings.Replace(n, "#", "x", 1) || strings.Contains(n, " ") {
+			add("name-with-blanks")
 		}
 	}
 	return nt, nil, cl
